@@ -562,6 +562,8 @@ pub fn run_line(line: &str, out: &mut String) {
             // which waker OBJECTS were woken (subscriber:waker identity, with multiplicity), as the
             // model's ObsWaker.wstep predicts
             woken_objs.sort();
+            // as a set: how often one waker object is woken is not part of the property
+            woken_objs.dedup();
             line.push_str(&format!(
                 " w{}",
                 woken_objs.iter().map(|(k, w)| format!("{k}:{w}")).collect::<Vec<_>>().join(",")
